@@ -49,6 +49,7 @@ def alphabet_ops(tier, reduced=False):
             for vary, can in ((False, False), (False, True), (True, True)):
                 o.append(("addpar", n, v, vary, can, 0.1 if can else None))
         o.append(("set", n, 2.5))
+    o.append(("set", "a", None))  # None is a legitimate in-memory value (it does not survive the file format, which the model knows)
     o.append(("set_parameters", ()))
     o.append(("set_parameters", (("a", 7),)))
     o.append(("set_parameters", (("a", 7), ("b_c", "x"))))
